@@ -530,10 +530,15 @@ func TestC16(t *testing.T) {
 		c.thresh = 80
 		emit(c, []edit{{true, rep("a", 6), v0a}, {true, rep("b", 4), v1a}, {true, rep("x", 26), v0a}, {false, rep("a", 6), 0},
 			{true, rep("b", 4), ida}, {true, rep("y", 30), v0a}, {true, rep("z", 30), v0a}}, "corpus-C16-2")
-		// C16-3: add X (-> HAMT), remove X: the sizeChange gate keeps the HAMT
+		// add X (-> HAMT), remove X: back to basic
 		c = base
 		c.thresh = 80
-		emit(c, []edit{{true, rep("a", 6), v0a}, {true, rep("b", 6), v0a}, {true, rep("x", 10), v0a}, {false, rep("x", 10), 0}}, "corpus-C16-3")
+		emit(c, []edit{{true, rep("a", 6), v0a}, {true, rep("b", 6), v0a}, {true, rep("x", 10), v0a}, {false, rep("x", 10), 0}}, "corpus")
+		// C16-3: 80 bytes under a threshold of 100, X (44) makes it a HAMT, a small entry is added, X removed:
+		// 90 bytes but the sizeChange gate keeps the HAMT
+		c = base
+		c.thresh = 100
+		emit(c, []edit{{true, rep("a", 6), v0a}, {true, rep("b", 6), v0a}, {true, rep("x", 10), v0a}, {true, "yy", ida}, {false, rep("x", 10), 0}}, "corpus-C16-3")
 		// the same with maxLinks as the trigger
 		c = base
 		c.maxLinks = 2
